@@ -168,6 +168,21 @@ class CFG:
                 for a in list(fd):
                     if nm and nm in a:
                         del fd[a]
+            # constant assignments to tracked flag variables establish facts (new_key = false; ...)
+            for n in self.blocks[b].elems:
+                if n.k == "BinaryOperator" and n.j.get("op") == "=":
+                    nm = render(n.children[0])
+                    cv = n.children[1].const_value()
+                    if cv is not None and track(nm) and n.children[0].strip().k == "DeclRefExpr":
+                        fd[nm] = bool(cv)
+                elif n.k == "DeclStmt":
+                    for d in n.j.get("decls", []):
+                        if d.get("init", -1) >= 0 and track(d["name"]):
+                            cv = self.fn.nodes[d["init"]].const_value()
+                            if cv is not None:
+                                fd[d["name"]] = bool(cv)
+                            else:
+                                fd.pop(d["name"], None)
             for i, s in enumerate(self.blocks[b].succs):
                 if s is None:
                     continue
